@@ -29,11 +29,15 @@ def liveness(chk):
     vlib.tlc_expect_violation(MODULE, "Handshake13F.live.ackall.cfg", "BothEstablish (false acknowledgements lose data)", timeout=600)
 
 
-def generate(chk, limit=None):
+def generate(chk, limit=None, variant=""):
+    """variant "": MTU 600, the server flight leaves in three datagrams; "m400": MTU 400, four datagrams (an acknowledgement can
+    then cover whole messages only while another whole message is still missing)."""
     out, seen = [], set()
-    for shape in ("gena", "genb"):
-        gen = vlib.tlc_generate(MODULE, "Handshake13F.%s.%s.cfg" % (shape, chk.tier), timeout=2400)
-        chk.add_tlc("13f." + shape, gen)
+    shapes = ("gena", "genb") if not variant else (("gena",) if chk.quick else ("gena", "genb"))
+    for shape in shapes:
+        cfg = "Handshake13F.%s%s.%s.cfg" % (variant + "." if variant else "", shape, chk.tier)
+        gen = vlib.tlc_generate(MODULE, cfg, timeout=2400)
+        chk.add_tlc("13f." + (variant + "." if variant else "") + shape, gen)
         printed = gen.printed
         gen.printed = []
         if limit and len(printed) > 4 * limit:      # keep memory bounded: thin out before de-duplicating
@@ -51,14 +55,18 @@ def generate(chk, limit=None):
     return out
 
 
-def replay(chk, binary, scripts, tag=""):
+def scen_of(variant=""):
+    return dict(SCEN, mtu=400) if variant == "m400" else SCEN
+
+
+def replay(chk, binary, scripts, tag="", variant=""):
     """Returns (flagged rows, summary)."""
     wd = vlib.scratch("hsr13f")
     try:
         inp, out = os.path.join(wd, "in.ndjson"), os.path.join(wd, "out.ndjson")
         with open(inp, "w") as fh:
             for s in scripts:
-                fh.write(json.dumps({"scen": SCEN, "steps": s["steps"], "qmax": QMAX, "bkcap": 3}) + "\n")
+                fh.write(json.dumps({"scen": scen_of(variant), "steps": s["steps"], "qmax": QMAX, "bkcap": 3}) + "\n")
         rc, txt = vlib.run_test(binary, "TestVerifHs13FScripts", {"VERIF_IN": inp, "VERIF_OUT": out}, timeout=3000)
         if rc != 0 or not os.path.exists(out):
             raise vlib.Inconclusive("fragmented-flight replay harness failed: %s" % txt[-2000:])
@@ -71,7 +79,7 @@ def replay(chk, binary, scripts, tag=""):
         chk.traces(summ["scripts"])
         chk.evaluated(n=summ["scripts"])
         for s in scripts:
-            chk.distinct.add("13f" + tag + json.dumps([(x["act"], x["dir"], x["pos"], x["name"]) for x in s["steps"]]))
+            chk.distinct.add("13f" + variant + tag + json.dumps([(x["act"], x["dir"], x["pos"], x["name"]) for x in s["steps"]]))
         return [r for r in rows[:-1] if not r.get("lab")], summ
     finally:
         shutil.rmtree(wd, ignore_errors=True)
